@@ -893,6 +893,238 @@ def gen_runave_case(r, tier):
     return {"kind": "runave", "L": L, "stride": stride, "it0": it0, "events": events}
 
 
+
+# ------------------------------------------------------------------ running average: any value type, any start
+PERIOD = 8.0
+
+
+def wrapz(x, P=PERIOD):
+    return x - math.floor(x / P + 0.5) * P
+
+
+def vvar_block(vtype, vid, extra=()):
+    L = ["colvar {", "  name v%d" % vid] + list(extra)
+    a, b = 2 * vid + 1, 2 * vid + 2
+    if vtype in ("z", "zper"):
+        L += ["  distanceZ {", "    main { atomNumbers %d }" % a, "    ref { dummyAtom (0,0,0) }", "    axis (0,0,1)"]
+        if vtype == "zper":
+            L += ["    period %r" % PERIOD, "    wrapAround 0.0"]
+        L += ["  }"]
+    elif vtype == "vec":
+        L += ["  distanceVec {", "    group1 { atomNumbers %d }" % b, "    group2 { atomNumbers %d }" % a, "  }"]
+    else:
+        L += ["  distanceDir {", "    group1 { atomNumbers %d }" % b, "    group2 { atomNumbers %d }" % a, "  }"]
+    L.append("}")
+    return L
+
+
+def runavev_scenario(c, k):
+    extra = ["  runAve on", "  runAveLength %d" % c["L"], "  runAveStride %d" % c["stride"]]
+    dummy = vvar_block("z", 1)
+    main = vvar_block(c["vtype"], 0, extra)
+    seg = 0
+    L = ["echo CASE %d" % k, "natoms 4", "temperature 300", "dt 1.0", "prefix c%ds%d" % (k, seg), "new"]
+    if c["it0"]:
+        L.append("setstep %d" % c["it0"])
+    L += heredoc(["colvarsTrajFrequency 0"] + dummy + (main if c["t0"] == 0 else []))
+    L += ["show atomf 0 cv 1 bias 0 energy 0"]
+    nstep = 0
+    for ev in c["events"]:
+        if ev[0] == "step":
+            if nstep == c["t0"] and c["t0"] > 0:
+                L += heredoc(main)
+            x = ev[1]
+            if isinstance(x, (list, tuple)):
+                L.append("pos 1 %s %s %s" % (hx(x[0]), hx(x[1]), hx(x[2])))
+            else:
+                L.append("pos 1 0 0 %s" % hx(x))
+            L.append("step")
+            nstep += 1
+        elif ev[0] == "boundary":
+            L.append("runboundary")
+        elif ev[0] == "restart":
+            seg += 1
+            f = "c%d_%d.state" % (k, seg)
+            L += ["flush", "save text %s" % f, "prefix c%ds%d" % (k, seg), "fresh"] + heredoc(["colvarsTrajFrequency 0"] + dummy + main) + ["load %s" % f]
+    L += ["flush", "echo END %d" % k]
+    return L
+
+
+def vdist2(vtype, a, b):
+    if vtype == "zper":
+        d = a[0] - b[0]
+        d -= math.floor(d / PERIOD + 0.5) * PERIOD
+        return d * d
+    if vtype == "unit":
+        cs = sum(x * y for x, y in zip(a, b))
+        cs = max(-1.0, min(1.0, cs))
+        return math.acos(cs) ** 2
+    return sum((x - y) ** 2 for x, y in zip(a, b))
+
+
+def check_runavev_case(run, c, k, impl_lines, scratch, model):
+    replay = {"kind": "runavev", "case": c}
+    if any(l.startswith("CONFIG err=") and "err=ok" not in l for l in impl_lines) or any(l.startswith("STEP") and "err=ok" not in l for l in impl_lines):
+        run.mismatch("runavev-run", c, [l for l in impl_lines if "err=" in l][:6], "every step and configuration succeeds")
+        return 0
+    # the values the implementation computed for v0, one per calc in which v0 exists
+    vals = []
+    cur = None
+    for l in impl_lines:
+        if l.startswith("STEP "):
+            cur = {"it": int(l.split()[1]), "v0": None}
+            vals.append(cur)
+        elif l.startswith("CV v0 ") and cur is not None:
+            cur["v0"] = [float.fromhex(t) for t in l.split()[2:]]
+    # segments: (it_restart, first relative step of the analysis, [(rel, it, value)])
+    segs = []
+    it = c["it0"]
+    curseg = {"it_restart": it, "hist": []}
+    first, boundary = True, False
+    j = 0
+    for ev in c["events"]:
+        if ev[0] == "step":
+            if first:
+                first = False
+            elif not boundary:
+                it += 1
+            boundary = False
+            if j < len(vals) and vals[j]["v0"] is not None:
+                curseg["hist"].append((it - curseg["it_restart"], it, vals[j]["v0"]))
+            j += 1
+        elif ev[0] == "boundary":
+            boundary = True
+        elif ev[0] == "restart":
+            segs.append(curseg)
+            curseg = {"it_restart": it, "hist": []}
+            first, boundary = True, False
+    segs.append(curseg)
+    vt = c["vtype"]
+    kind = {"z": "scalar", "zper": "periodic %s" % hx(PERIOD), "vec": "vector3", "unit": "unit"}[vt]
+    # imposed values (oracle): the implementation's values must be the imposed ones
+    jj = 0
+    for ev in c["events"]:
+        if ev[0] != "step":
+            continue
+        if jj < len(vals) and vals[jj]["v0"] is not None and vt != "unit":
+            want = [wrapz(ev[1])] if vt == "zper" else ([float(ev[1])] if vt == "z" else [float(q) for q in ev[1]])
+            if not close(vals[jj]["v0"], want, OTOL):
+                run.mismatch("runavev-values", c, vals[jj]["v0"], want)
+                return 0
+        jj += 1
+    lines = []
+    for s in segs:
+        dim = len(s["hist"][0][2]) if s["hist"] else 1
+        lines.append("RUNAVEV %s %d %d %d %d %d %s" % (kind, c["L"], c["stride"], s["it_restart"], dim, len(s["hist"]),
+                                                     " ".join("%d %s" % (t, " ".join(hx(q) for q in x)) for t, it, x in s["hist"])))
+    rc, mout, err = V.run_lines(model, lines)
+    if rc != 0 or len(mout) != len(segs):
+        run.mismatch("runavev-model", c, err[-300:], mout[:2])
+        return 0
+    n = 0
+    L, st = c["L"], c["stride"]
+    for si, s in enumerate(segs):
+        rows = []
+        path = os.path.join(scratch, "c%ds%d.v0.runave.traj" % (k, si))
+        if os.path.exists(path):
+            for line in open(path):
+                t = line.split()
+                if t and not t[0].startswith("#"):
+                    f = parse_fields(t[1:])
+                    av = f[0] if isinstance(f[0], list) else [f[0]]
+                    rows.append((int(t[0]), av, f[1]))
+        xs = {}
+        for t, it, x in s["hist"]:
+            xs.setdefault(t, x)
+        if not xs:
+            continue
+        tstart, tmax = min(xs), max(xs)
+        # ---- oracle: lines exactly where L strided samples after the first evaluation exist
+        want_steps = [t for t in range(tstart + 1, tmax + 1) if t % st == 0 and t - (L - 1) * st > tstart]
+        got_steps = [stp - s["it_restart"] for stp, _, _ in rows]
+        if got_steps != want_steps:
+            sig = "runave:lines" + (":off-grid-start" if tstart % st else "")
+            run.violation(sig, "analysis starting at relative step %d, stride %d, window %d: lines at relative steps %s, full windows of "
+                          "evenly spaced samples end at %s" % (tstart, st, L, got_steps[:10], want_steps[:10]), replay)
+            continue
+        for stp, av, sd in rows:
+            t = stp - s["it_restart"]
+            win = [xs[t - jx * st] for jx in range(L)]
+            run.dist("oracle:runavev-line:" + vt)
+            if vt == "zper":
+                # values seen from x(t) through the shortest image (window narrower than half a period)
+                y = [win[0][0] + (w[0] - win[0][0] - math.floor((w[0] - win[0][0]) / PERIOD + 0.5) * PERIOD) for w in win]
+                m = sum(y) / L
+                dm = av[0] - m
+                dm -= math.floor(dm / PERIOD + 0.5) * PERIOD
+                if abs(dm) > 1e-9:
+                    run.violation("runave:periodic-wrap", "step %d: window %s of a variable with period %g: reported average %r, the values "
+                                  "seen through the shortest image %s average to %r" % (stp, [w[0] for w in win], PERIOD, av[0], y, m), replay)
+                    continue
+                wantsd = math.sqrt(sum((q - m) ** 2 for q in y) / (L - 1)) if L > 1 else None
+            else:
+                m = [sum(w[i] for w in win) / L for i in range(len(win[0]))]
+                if vt == "unit":
+                    nrm = math.sqrt(sum(q * q for q in m))
+                    m = [q / nrm for q in m]
+                if not close(av, m, 1e-9):
+                    run.violation("runave:mean:" + vt, "step %d: running average %r, the mean of the window %s is %r" % (stp, av, win, m), replay)
+                    continue
+                wantsd = math.sqrt(sum(vdist2(vt, w, m) for w in win) / (L - 1)) if L > 1 else None
+            if wantsd is not None and not close(sd, wantsd, 1e-7):
+                run.violation("runave:stddev:" + vt, "step %d: running stddev %r, the sample standard deviation of the window in the "
+                              "variable's metric is %r" % (stp, sd, wantsd), replay)
+        # ---- tie
+        mrows = []
+        for part in mout[si].split(" ; "):
+            t = part.split()
+            if t:
+                mrows.append((int(t[0]), [float.fromhex(q) for q in t[1].split(",")], float.fromhex(t[3])))
+        if [r_[0] for r_ in rows] != [r_[0] for r_ in mrows]:
+            run.mismatch("runave:steps", c, [r_[0] for r_ in rows][:12], [r_[0] for r_ in mrows][:12])
+            continue
+        for a, b in zip(rows, mrows):
+            n += 1
+            if not close(a[1], b[1], 1e-10):
+                run.mismatch("runave:mean", c, (a[0], a[1]), (b[0], b[1]))
+            elif L > 1 and not close(a[2], b[2], 1e-7):
+                run.mismatch("runave:stddev", c, (a[0], a[2]), (b[0], b[2]))
+    return n
+
+
+def gen_runavev_case(r, tier):
+    vt = r.choice(["z", "zper", "zper", "vec", "unit"])
+    L = r.choice([1, 2, 2, 3, 4])
+    stride = r.choice([1, 2, 2, 3])
+    t0 = r.choice([0, 0, 1, 2, 3, 5])
+    n = t0 + L * stride + r.randint(2, 2 * L * stride + 4) + (r.randint(0, 30) if tier != "quick" else 0)
+    it0 = r.choice([0, 0, r.randint(1, 30)])
+    center = V.dyadic(r, -4, 4, 2)
+
+    def val():
+        if vt == "z":
+            return V.dyadic(r, -8, 8, 3)
+        if vt == "zper":
+            # a band narrower than half a period, anywhere (often across the boundary +-4)
+            return center + V.dyadic(r, -1.5, 1.5, 3)
+        while True:
+            v = [V.dyadic(r, -4, 4, 2) for _ in range(3)]
+            if sum(abs(q) for q in v) > 0.5:
+                return v
+    events = []
+    for i in range(n):
+        u = r.random()
+        if events and i > t0 and u < 0.07:
+            last = [e for e in events if e[0] == "step"][-1]
+            events += [["boundary"], list(last)]
+        elif events and i > t0 + 1 and u < 0.10:
+            last = [e for e in events if e[0] == "step"][-1]
+            events += [["restart"], list(last)]
+        else:
+            events.append(["step", val()])
+    return {"kind": "runavev", "vtype": vt, "L": L, "stride": stride, "t0": t0, "it0": it0, "events": events}
+
+
 # ------------------------------------------------------------------ correlation function cases
 def acf_scenario(c, k):
     ty = c["vtype"]
@@ -1130,8 +1362,8 @@ def corpus_cases():
     return cs
 
 
-SCEN = {"traj": traj_scenario, "runave": runave_scenario, "acf": acf_scenario}
-CHECK = {"traj": check_traj_case, "runave": check_runave_case, "acf": check_acf_case}
+SCEN = {"traj": traj_scenario, "runave": runave_scenario, "acf": acf_scenario, "runavev": runavev_scenario}
+CHECK = {"traj": check_traj_case, "runave": check_runave_case, "acf": check_acf_case, "runavev": check_runavev_case}
 
 
 def run_cases(run, cases, unit, model, scratch):
@@ -1172,6 +1404,8 @@ def run_cases(run, cases, unit, model, scratch):
                     run.dist("traj:event:" + e[0])
         elif c["kind"] == "runave":
             run.dist("runave:L=%d,stride=%d" % (c["L"], c["stride"]))
+        elif c["kind"] == "runavev":
+            run.dist("runavev:%s:start%s" % (c["vtype"], "=0" if c["t0"] == 0 else (":on-grid" if c["t0"] % c["stride"] == 0 else ":off-grid")))
         else:
             run.dist("acf:%s%s%s" % (c["type"], ":cross" if c["cross"] else "", ":offset" if c["off"] else ""))
         run.sample({"kind": c["kind"], "case": {kk: vv for kk, vv in c.items() if kk != "events"}, "n_events": len(c["events"]), "compared_values": n})
@@ -1208,6 +1442,8 @@ def check(run):
         cases.append(gen_runave_case(r, run.tier))
     for _ in range(100 * mult):
         cases.append(gen_acf_case(r, run.tier))
+    for _ in range(100 * mult):
+        cases.append(gen_runavev_case(r, run.tier))
     total = run_cases(run, cases, unit, model, scratch)
     run.cov["rule"] = ("a case is one scenario (trajectory / running average / correlation function) driven through the engine "
                        "simulator; distinct = distinct configuration+length; nontrivial = at least one written number was compared")
